@@ -30,6 +30,11 @@ def build(v, Token):
         return tuple(build(i, Token) for i in v['items'])
     if k == 'list':
         return [build(i, Token) for i in v['items']]
+    if k == 'rec':
+        from spec import builders
+        def plain(x):
+            return {f: plain(y) for f, y in x['fields'].items()} if x.get('k') == 'rec' else build(x, Token)
+        return builders.build_rec(v['cls'], {f: plain(x) for f, x in v['fields'].items()})
     if k == 'py':
         return eval(v['expr'], {'Token': Token})
     raise ValueError('cannot build %r' % (v,))
@@ -174,6 +179,9 @@ def gen_values(ty, hints, Token):
     if ty == 'slice':
         rng = [None] + list(range(-1, 4))
         return [slice(a, b) for a in rng for b in rng]
+    if ty.startswith('rec['):
+        from spec import builders
+        return builders.gen_rec(ty[4:-1], hints)
     if ty.startswith('tuple['):
         parts = split_top(ty[6:-1])
         return [tuple(t) for t in itertools.product(*[gen_values(p, hints, Token) for p in parts])]
@@ -203,7 +211,7 @@ def main():
     sys.path.insert(0, job['verif'])
     from chameleon.tokenize import Token
     specns = {}
-    for m in job.get('spec_modules', ['spec.core']):
+    for m in job.get('spec_modules', ['spec.core', 'spec.repeat']):
         mod = importlib.import_module(m)
         specns.update({k: v for k, v in vars(mod).items() if not k.startswith('__')})
     specns['Token'] = Token
@@ -215,7 +223,11 @@ def main():
     names = list(job['params'])
     out = {'target': job['target']}
     if job['mode'] == 'replay':
-        args = [build(job['inputs'][n], Token) for n in names]
+        try:
+            args = [build(job['inputs'][n], Token) for n in names]
+        except Exception as e:
+            print(json.dumps({'verdict': 'pre-false', 'detail': {'unbuildable': repr(e)}}))
+            return
         verdict, detail = run_once(job, func, args, specns)
         out.update(verdict=verdict, detail=detail, inputs={n: describe(a) for n, a in zip(names, args)})
     else:  # search
@@ -234,7 +246,8 @@ def main():
             tried += 1
             if tried > budget:
                 break
-            verdict, detail = run_once(job, func, [copy.deepcopy(a) for a in args], specns)
+            verdict, detail = run_once(job, func, [copy.copy(a) if type(a).__name__ == 'RepeatItem'
+                                                   else copy.deepcopy(a) for a in args], specns)
             if verdict != 'pre-false':
                 pre_ok += 1
             if verdict == 'violates':
